@@ -491,22 +491,27 @@ func (c *Classifier) multipleMatch(unknown string) *pq.Queue {
 		go func(known *knownValue) {
 			if verifOn {
 				verifEmit("start", "m", m, "key", known.key)
+			}
+			// The search set is built lazily. Both the check and the assignment
+			// happen under the lock: other MultipleMatch calls run the same code
+			// for the same value concurrently.
+			c.muValues.Lock()
+			if verifOn {
+				verifEmit("lock", "mu", "values", "mode", "W")
 				verifEmit("acc", "loc", "set:"+known.key, "kind", "R")
 			}
 			if known.set == nil {
 				k := searchset.New(known.normalizedValue, searchset.DefaultGranularity)
-				c.muValues.Lock()
 				if verifOn {
-					verifEmit("lock", "mu", "values", "mode", "W")
 					verifEmit("acc", "loc", "values", "kind", "R")
 					verifEmit("acc", "loc", "set:"+known.key, "kind", "W")
 				}
 				c.values[known.key].set = k
-				if verifOn {
-					verifEmit("unlock", "mu", "values", "mode", "W")
-				}
-				c.muValues.Unlock()
 			}
+			if verifOn {
+				verifEmit("unlock", "mu", "values", "mode", "W")
+			}
+			c.muValues.Unlock()
 			if verifOn {
 				verifEmit("acc", "loc", "set:"+known.key, "kind", "R")
 			}
